@@ -192,8 +192,12 @@ def bomb_cases(rng):
         "top = { m5 }{ m5 }\n", "top = { m4 }{ m4 }{ m4 }{ m4 } end\n", "top = { -tb(x: 1) } { $x }\n",
         "top = { ARGS(m5, m5) }\n", "top = { m5 ->\n *[a] b\n }\n" if False else "top = { IDENT(m5) ->\n *[a] b { m5 }\n }\n",
         "top = { MISSING(m5) }\n", "top = { -t9(x: 1) }{ m5 }\n",
+        # the limit trips INSIDE an isolated placeable of a multi-element pattern (FSI already written)
+        "top = a { $x ->\n *[other] { m5 }\n } b\n", "top = a { { m5 } } b\n", "top = a { ARGS(m5) } b\n", "top = a{ IDENT(m5) }b\n",
+        "top = Start { $x ->\n *[other] { row }|{ row }|{ row }\n } End\n", "top = { $x }{ NUMBER(m5) }{ $x }\n",
+        "top = x { 1 ->\n *[other] y { \"s\" ->\n *[s] z { m5 } z\n } y\n } x\n",
     ]
-    extra = "-tb = { m5 }\n    .a = { m5 }\nm5x = x\n"
+    extra = "-tb = { m5 }\n    .a = { m5 }\nm5x = x\nrow = " + "{ $x }" * 50 + "\n"
     for leaf in leaf_variants:
         for top in tops:
             for iso in (0, 1):
@@ -202,6 +206,24 @@ def bomb_cases(rng):
                 cfg = "iso=%d;tr=none;fm=none;fl=%s;loc=en" % (iso, rng.choice(["st", "conc"]))
                 args = rng.choice(["~", "%s=s%s" % (hx("x"), hx("X")), "%s=i1" % hx("x")])
                 yield "fmt %s a:%s %s %s:~:%s" % (cfg, hx(res), ",".join(FUNCS), hx("top"), args)
+
+
+def arg_bomb_cases(rng):
+    """fan-out through CALL ARGUMENTS: every level doubles inside the argument list of a function or of a term
+    call, so the limit can only trip if placeables resolved while evaluating arguments are counted"""
+    for depth in (7, 8, 9):
+        for kind in ("fn", "term", "mixed", "named-sel"):
+            res = "a0 = L{ $x }\n-t = T\n"
+            for i in range(1, depth + 1):
+                if kind == "fn" or (kind == "mixed" and i % 2):
+                    res += "a%d = { ARGS(a%d, a%d) }\n" % (i, i - 1, i - 1)
+                elif kind == "named-sel":
+                    res += "a%d = { IDENT(a%d) ->\n *[o] { IDENT(a%d) }\n }\n" % (i, i - 1, i - 1)
+                else:
+                    res += "a%d = { -t(a%d, a%d) }{ IDENT(a%d) }\n" % (i, i - 1, i - 1, i - 1)
+            for iso in (0, 1):
+                cfg = "iso=%d;tr=none;fm=none;fl=%s;loc=en" % (iso, rng.choice(["st", "conc"]))
+                yield "fmt %s a:%s %s %s:~:%s=s%s" % (cfg, hx(res), ",".join(FUNCS), hx("a%d" % depth), hx("x"), hx("X"))
 
 
 def handwritten():
